@@ -678,3 +678,14 @@ rename("C11", TERMS, "Slice.eager_subs")
 # the whole package re-emitted by ast.unparse: no rule may depend on layout, comments or line numbers
 for _p in ("C01", "C02", "C03", "C05", "C06", "C07", "C08", "C11", "C15", "C16", "C17", "C18", "C20"):
     V.append(dict(id=f"{_p.lower()}-s-unparse-package", prop=_p, kind="silent", transform=("unparse_package", "", "")))
+
+fire("c17-prioritized-dedup-keeps-last", "C17", INTERP,
+     "        assert subinterpretations\n        assert len(subinterpretations) < 10",
+     "        subinterpretations = tuple(dict.fromkeys(reversed(subinterpretations)))[::-1]\n        assert subinterpretations\n        assert len(subinterpretations) < 10", "R17.5")
+silent("c17-s-prioritized-dedup-keeps-first", "C17", INTERP,
+       "        assert subinterpretations\n        assert len(subinterpretations) < 10",
+       "        subinterpretations = tuple(dict.fromkeys(subinterpretations))\n        assert subinterpretations\n        assert len(subinterpretations) < 10")
+fire("c15-sample-array-registration-dropped", "C15", ARRAY,
+     "@logaddexp.register(array, array)\n@sample.register(array, array)\n", "@logaddexp.register(array, array)\n", "R15.8", "sample")
+fire("c15-safediv-scalar-plain-division", "C15", BUILTIN,
+     "        return x * _builtin_min(1.0 / y if y != 0 else math.inf, sys.float_info.max)", "        return operator.truediv(x, y)", "R15.9", "safediv")
